@@ -80,9 +80,12 @@ def main(run):
                 vals = gen(rnd, n, kind)
                 tr = SlidingWindowTracker(k)
                 failed = False
+                sched = rnd.choice(["every", "every", "sparse", "bursts"])       # WHEN the statistics are read must not matter
                 for i, v in enumerate(vals):
                     tr.update(v)
                     m = i + 1
+                    if m != n and ((sched == "sparse" and rnd.random() > 0.15) or (sched == "bursts" and (m // (k + 1)) % 3 != 0)):
+                        continue
                     win = [Fraction(float(x)) for x in vals[max(0, m - k):m]]
                     mean = sum(win) / len(win)
                     var = sum((x - mean) ** 2 for x in win) / len(win)
